@@ -135,6 +135,12 @@ def run(ctx):
         "an event emitted after the subscription call returned must arrive within 10 s; events emitted while not subscribed get no verdict",
         "properties are initialised by the implementation during activation (as the generated documentation demands)"]
 
+    # how a call / subscription / property access finds its action id at run time (MetaLookup.tla: MethodID /
+    # SignalID / PropertyID, the generators' names, the merge with the generic object; design-notes/EXT-metalookup.md):
+    # in C05's scope is that what the generated proxy asks reaches its own action, the rest is observation
+    import ext_metalookup
+    ext_metalookup.run(ctx, "C05")
+
 
 def thin(exported, seed, thorough):
     """Every behaviour of the first layout is replayed; of the second layout (same operations, other
